@@ -88,6 +88,12 @@ def run(ctx: Ctx) -> Result:
                 if wk in ('htlc', 'htlc2'):
                     chk('receiver signature with a wrong preimage', wrongpre[wk], False)
                 chk('claim attempt by another key', stranger[wk], False)
+                if wk.startswith('ptlc') and refund['ptlc_refund'].bytes.endswith(b'\x00'):
+                    # the path selector is a stack item like any other: any set bit makes it true - a refund signature under a selector
+                    # that merely begins with a zero byte is a claim attempt by the wrong key
+                    for sel in (b'\x00\x01', b'\x00\x00\x07', b'\x00' + pre[:3] + b'\x01'):
+                        wsel = T.Script.from_bytes(refund['ptlc_refund'].bytes[:-1] + bytes([3, len(sel)]) + sel)
+                        chk(f'refund-key signature under the truthy selector {sel.hex()}', wsel, False)
                 if wk.startswith('ptlc'): chk('refund attempt by another key', stranger['ptlc_refund'], False)
                 if lk == 'ptlc_tweak': chk('receiver signature without the tweak scalar', claim['ptlc'], False)
                 if lk == 'ptlc': chk('tweaked signature against the untweaked lock', claim['ptlc_tweak'], False)
